@@ -368,7 +368,7 @@ func (g *zgen) scoreRange() (int64, int64) {
 }
 
 // intExtremes: the limits of int and their neighbours (rank arguments)
-var intExtremes = []int64{math.MaxInt64, math.MaxInt64 - 1, math.MinInt64, math.MinInt64 + 1}
+var intExtremes = []int64{int64(math.MaxInt), int64(math.MaxInt) - 1, int64(math.MinInt), int64(math.MinInt) + 1} // int is 32 bit under GOARCH=386
 
 // a (start, end) pair of rank arguments; now and then an ordinary start with an end at a limit of int
 // (or the other way round)
@@ -825,7 +825,7 @@ func gen(a Args, out *Out) {
 				}
 				if c := ops.At(i).At(0).AsInt(); c == 3 || c == 7 {
 					for _, v := range []int64{ops.At(i).At(1).Int64(), ops.At(i).At(2).Int64()} {
-						if v >= math.MaxInt64-1 || v <= math.MinInt64+1 {
+						if v >= int64(math.MaxInt)-1 || v <= int64(math.MinInt)+1 {
 							out.Count("rank-range-op-with-int-limit-argument")
 							break
 						}
